@@ -7,9 +7,12 @@ variable names and the spelling of constants do not matter (parameter names `ker
   * threshold: the `if` that compares klen with a constant integer expression (`self.X`, `KernelDG.X`, a
     module constant, `5 * 10`, ...), either operand order, the parallel part in the `if` or in the `else`
     branch (`if klen < T: sequential else: parallel` reads as `klen >= T`), `not` resolved;
-  * slices: the comprehension `[kernel[s:e] for s, e in zip(A, B)]`; A and B are followed to their
-    definitions, each `[<elt> for t in range(num_cores)]` -- as a comprehension or as the loop
-    `A = []; for t in range(num_cores): A.append(<elt>)`;
+  * slices: the list with one `kernel[start(tid):end(tid)]` per `tid in range(num_cores)`, read as a STREAM over
+    tid (astutil_G5.Streams) whatever its spelling: `[kernel[s:e] for s, e in zip(A, B)]` with A, B built by
+    comprehensions or append loops, one comprehension / generator over `range(num_cores)` with the bounds inline,
+    an append loop with the bounds hoisted into locals, a list of `(start, end)` pairs, `enumerate(A)` with
+    `B[i]`, `A[tid]` / `B[tid]`, `list(zip(..))`, `range(0, num_cores)`, a hoisted range;  a filter, a step, another
+    range or a swapped bound changes or breaks the reading;
   * workload: the one hoisted arithmetic local that the two element expressions use; locals it is built from
     are inlined (`n = klen - 1; workload = int(n / num_cores) + 1`);
   * arithmetic is compiled to Lean `Nat` expressions: `int(a / b)` and `a // b` are Nat division (exact for the
@@ -17,12 +20,13 @@ variable names and the spelling of constants do not matter (parameter names `ker
     value is non-negative -- the correspondence compares the slices handed to the workers with the model's
     for every run); the operands of the commutative `+`, `*`, `min`, `max` are put in one canonical order
     (compound, variable, literal; then by text), so `1 + x` and `x + 1` give the same text;
-  * the poll loop: `while <now> - <start> <op> timeout` (or mirrored `timeout >= ...`), the constant of the one
+  * the poll loop: `while <now> - <start> <op> timeout` (or mirrored `timeout >= ...`; or `while True:` whose
+    first statement is the guard `if <now> - <start> > timeout: <terminate>; break`), the constant of the one
     `sleep(...)`, body `if alive: sleep else: join...; break` or the guard form `if not alive: ...; break` +
     `sleep`, a `while ... else`, the constant compared with `timeout` that switches the timeout off, and
     where `self.timed_out = True` stands (directly in the loop's `else`, or under `if p.is_alive()` with the kill).
 
-Insisted on: exactly one threshold test, one slice comprehension over `zip` of two `range(num_cores)` lists, one
+Insisted on: exactly one threshold test, one list of kernel slices indexed by `range(num_cores)`, one
 hoisted workload, one `while`, one sleep, one timed_out flag; a shape outside these raises (= failed generator).
 No module of the analysed tree is imported or executed.
 """
@@ -32,9 +36,11 @@ import sys
 
 sys.path.insert(0, os.path.dirname(os.path.abspath(__file__)))
 import astutil_G1 as U  # noqa: E402
+import astutil_G5 as G5  # noqa: E402
 
 # the plug-in and its helpers are inputs too: a change of either regenerates the file
-SELF = ["../verif-self:tools/gen/workers.py", "../verif-self:tools/gen/astutil_G1.py"]
+SELF = ["../verif-self:tools/gen/workers.py", "../verif-self:tools/gen/astutil_G1.py",
+        "../verif-self:tools/gen/astutil_G5.py"]
 
 from translate import TranslateError, generator, rat, HEADER  # noqa: E402
 
@@ -153,7 +159,7 @@ class NatCompiler:
         if isinstance(e, ast.Name):
             r = self.sc.lookup(e.id)
             if r is None or not isinstance(r[0], ast.AST) or r[1] is not self.sc:
-                raise TranslateError("scheduling expression uses unknown name %r (line %d)" % (e.id, e.lineno))
+                raise TranslateError("scheduling expression uses unknown name %r (line %s)" % (e.id, getattr(e, "lineno", "?")))
             if self.mode == "inline":
                 return self.go(r[0], d)
             if not any(h is r[0] for h in self.hoisted):
@@ -167,7 +173,7 @@ class NatCompiler:
                 if isinstance(e.op, k):
                     a, b = _canon(v, self.go(e.left, d), self.go(e.right, d))
                     return ("bin", v, a, b)
-            raise TranslateError("scheduling expression: unsupported operator at line %d" % e.lineno)
+            raise TranslateError("scheduling expression: unsupported operator at line %s" % getattr(e, "lineno", "?"))
         if isinstance(e, ast.Call) and isinstance(e.func, ast.Name) and not e.keywords \
                 and self.sc.lookup(e.func.id) is None:
             if e.func.id == "int" and len(e.args) == 1:
@@ -181,55 +187,48 @@ class NatCompiler:
         raise TranslateError("scheduling expression: unsupported form at line %d" % getattr(e, "lineno", -1))
 
 
-def _range_comp(node, roles, what):
-    """[<elt> for tid in range(num_cores)] (or the equivalent append loop) -> (elt, loop variable name)"""
-    c = U.comp_view(node, roles.sc)
-    if c is None:
-        raise TranslateError("%s: not a single list comprehension / append loop" % what)
-    if c.ifs or not isinstance(c.target, ast.Name):
-        raise TranslateError("%s: comprehension has a filter or a tuple target" % what)
-    it = roles.sc.deref(c.iter)
-    if not (isinstance(it, ast.Call) and isinstance(it.func, ast.Name) and it.func.id == "range" and not it.keywords):
-        raise TranslateError("%s: does not iterate over range(num_cores)" % what)
-    args = list(it.args)
-    if len(args) == 2:
-        ok, v = roles.sc.try_ev(args[0])
-        if not (ok and v == 0 and not isinstance(v, (bool, float))):
-            raise TranslateError("%s: range does not start at 0" % what)
-        args = args[1:]
-    if len(args) != 1 or not roles.is_cores(args[0]):
-        raise TranslateError("%s: does not iterate over range(num_cores)" % what)
-    return c.elt, c.target.id
-
-
 def _find_slices(fn, roles):
-    """the comprehension [kernel[s:e] for s, e in zip(A, B)] -> (node, A, B)"""
-    hits = []
+    """The list of kernel slices handed to the workers, in any spelling (G5.Streams): one element per
+    `tid in range(num_cores)`, element `kernel[<start(tid)>:<end(tid)>]`.
+    -> (defining comprehension / loop node, start expression, end expression) over Name(G5.TID)"""
     sc = roles.sc
-    views = [U.comp_view(n, sc) for n in ast.walk(fn) if isinstance(n, (ast.ListComp, ast.GeneratorExp))]
-    views += [U.comp_view(ast.Name(id=nm, ctx=ast.Load()), sc) for nm, b in sc.bind.items()
-              if len(b) == 1 and b[0][0] == "assign" and isinstance(b[0][1], (ast.List, ast.Call))]   # append loops
-    for c in views:
-        if c is None:
+
+    def single(name):
+        try:
+            v = sc.single(name)
+        except U.NotConst:
+            return None
+        return v
+
+    def const0(node):
+        ok, v = sc.try_ev(node)
+        return ok and v == 0 and not isinstance(v, (bool, float))
+
+    st = G5.Streams(fn, single, roles.is_cores, const0)
+
+    def is_slice(e):
+        return isinstance(e, ast.Subscript) and roles.is_kernel(e.value) and isinstance(e.slice, ast.Slice)
+
+    cands = []      # (node to resolve, direct element expression)
+    for n in U.walk_scope(fn):
+        if isinstance(n, (ast.ListComp, ast.GeneratorExp)):
+            cands.append((n, n.elt))
+        elif isinstance(n, ast.Call) and isinstance(n.func, ast.Attribute) and n.func.attr == "append" \
+                and isinstance(n.func.value, ast.Name) and len(n.args) == 1:
+            cands.append((ast.Name(id=n.func.value.id, ctx=ast.Load()), sc.deref(n.args[0])))
+    hits = []
+    for node, direct in cands:
+        if not is_slice(direct):
             continue
-        el = c.elt
-        if not (isinstance(el, ast.Subscript) and roles.is_kernel(el.value) and isinstance(el.slice, ast.Slice)):
-            continue
-        sl = el.slice
-        it = sc.deref(c.iter)
-        if (not c.ifs and sl.step is None
-                and isinstance(it, ast.Call) and isinstance(it.func, ast.Name) and it.func.id == "zip"
-                and len(it.args) == 2 and not it.keywords
-                and isinstance(c.target, ast.Tuple) and len(c.target.elts) == 2
-                and all(isinstance(x, ast.Name) for x in c.target.elts)
-                and isinstance(sl.lower, ast.Name) and isinstance(sl.upper, ast.Name)
-                and [sl.lower.id, sl.upper.id] == [x.id for x in c.target.elts]):
-            if not any(h[0] is c.node for h in hits):
-                hits.append((c.node, it.args[0], it.args[1]))
-        else:
-            raise TranslateError("slices of the kernel are not [kernel[s:e] for s, e in zip(starts, ends)] (line %d)" % c.node.lineno)
+        e = st.elem(node)
+        if e is None or not is_slice(e) or e.slice.step is not None or e.slice.lower is None or e.slice.upper is None:
+            raise TranslateError("slices of the kernel are not one `kernel[start(tid):end(tid)]` per tid in "
+                                 "range(num_cores) (line %d)" % getattr(direct, "lineno", 0))
+        where = st.origin[id(e)]
+        if not any(h[0] is where for h in hits):
+            hits.append((where, e.slice.lower, e.slice.upper))
     if len(hits) != 1:
-        raise TranslateError("expected one [kernel[s:e] for s, e in zip(starts, ends)], found %d" % len(hits))
+        raise TranslateError("expected one list of kernel slices `kernel[start(tid):end(tid)]`, found %d" % len(hits))
     return hits[0]
 
 
@@ -242,7 +241,7 @@ def gen_workers():
     fn = sc.node
     roles = Roles(sc)
 
-    slices, a_starts, a_ends = _find_slices(fn, roles)
+    slices, s_elt, e_elt = _find_slices(fn, roles)
 
     # ---- threshold: the `if` comparing klen with a constant; which branch is the parallel one
     cands = []
@@ -284,11 +283,9 @@ def gen_workers():
         thr_doc = thr_use = ast.unparse(thr_node)
 
     # ---- scheduling expressions
-    s_elt, s_var = _range_comp(a_starts, roles, "starts")
-    e_elt, e_var = _range_comp(a_ends, roles, "ends")
-    cs = NatCompiler(roles, s_var)
+    cs = NatCompiler(roles, G5.TID)
     start = cs.go(s_elt)
-    ce = NatCompiler(roles, e_var)
+    ce = NatCompiler(roles, G5.TID)
     end = ce.go(e_elt)
     hoisted = list(cs.hoisted)
     for h in ce.hoisted:
@@ -304,7 +301,16 @@ def gen_workers():
     if len(loops) != 1:
         raise TranslateError("expected exactly one while loop, found %d" % len(loops))
     loop = loops[0]
-    t, pol = U.strip_not(loop.test)
+    loop_test, loop_body, loop_else = loop.test, list(loop.body), list(loop.orelse)
+    ok, always = sc.try_ev(loop_test)
+    if ok and always is True and not loop_else and loop_body and isinstance(loop_body[0], ast.If) \
+            and not loop_body[0].orelse and loop_body[0].body and isinstance(loop_body[0].body[-1], ast.Break):
+        # `while True: if <timed out>: <terminate>; break; <poll>`  ==  `while not <timed out>: <poll>  else: <terminate>`
+        guard = loop_body[0]
+        loop_test = ast.UnaryOp(op=ast.Not(), operand=guard.test)
+        loop_else = list(guard.body[:-1]) or [ast.Pass()]
+        loop_body = loop_body[1:]
+    t, pol = U.strip_not(loop_test)
     if not (isinstance(t, ast.Compare) and len(t.ops) == 1 and type(t.ops[0]) in MIRROR):
         raise TranslateError("while condition is not `<now> - <start> <op> timeout`")
     left, right, wop = t.left, t.comparators[0], type(t.ops[0])
@@ -322,7 +328,7 @@ def gen_workers():
         raise TranslateError("expected one sleep(<constant>) in the poll loop")
     interval = sc.ev_num(sleeps[0].args[0], "sleep interval")
     # the loop body: `if any(p.is_alive() ...): sleep else: join...; break` (or the guard-clause form)
-    dec = U.split_if_else(loop.body)
+    dec = U.split_if_else(loop_body)
     if dec is None:
         raise TranslateError("poll loop body is not a single if/else")
     test, then, other = dec
@@ -337,7 +343,7 @@ def gen_workers():
         raise TranslateError("poll loop: the decision does not test is_alive()")
     if tpol != in_then:
         raise TranslateError("poll loop: sleeps when no worker is alive")
-    if not loop.orelse:
+    if not loop_else:
         raise TranslateError("poll loop has no else branch")
 
     # placement of `self.timed_out = True`
@@ -351,11 +357,11 @@ def gen_workers():
     flags = [n for n in ast.walk(fn) if is_flag(n)]
     if len(flags) != 1:
         raise TranslateError("expected exactly one `self.timed_out = True`, found %d" % len(flags))
-    if any(n is flags[0] for n in loop.orelse):
+    if any(n is flags[0] for n in loop_else):
         only_if_alive = False
     else:
         only_if_alive = None
-        for n in ast.walk(ast.Module(body=loop.orelse, type_ignores=[])):
+        for n in ast.walk(ast.Module(body=loop_else, type_ignores=[])):
             if isinstance(n, ast.If) and any(m is flags[0] for m in n.body):
                 if any(pl and U.call_name(a) == "is_alive" for a, pl in U.atoms(n.test, True)):
                     # the same `if` must also do the kill
